@@ -10,6 +10,11 @@ IEEE-754 bit pattern; `N` = None.
   res ci  <dist> <p> <pthr|N> <size> <lo|N> <hi|N>            ciANIResult(...)
   mh <kind> <lenA> <lenB> <common> <scaled> <k> <accA> <accB> <v1> <v2>
         kind ∈ cont max avg jac; v1 = A.f(B), v2 = B.f(A) (f = contained_by / max_containment / jaccard), acc = size_is_accurate()
+  cls <lenA> <lenB> <common> <extraA> <extraB> <scaledA> <scaledB> <k> <cmp_scaled|-> <ci> <conf> <17 tokens>
+        FracMinHashComparison / PrefetchResult / GatherResult / SearchResult on two sketches; the 17 tokens are the MinHash-level
+        answers on the sketches downsampled to the comparison scaled (acc1 acc2, containment_ani A->B, B->A, max_containment_ani:
+        ani lo hi px each, jaccard_ani: ani px jx) -- INPUTS; the model derives every class-level field from them
+  clsnum <lenA> <lenB> <common> <num> <k>                     NumMinHashComparison / SearchResult on num sketches
   sia <len> <scaled> <rel> <conf> <cdfHi> <cdfLo> <pmfLo|N>    MinHash(len hashes, scaled).size_is_accurate(rel, conf); the three scipy
         results are INPUTS; the model reproduces which scipy calls are made, with which arguments, the probability and the answer
   pyvar <L> <k> <r1>                                          distance_utils.var_n_mutated(L, k, r1)
@@ -52,6 +57,66 @@ def showAni (r : Except String (ANIResult Float)) : String :=
   match r with
   | .error e => "err " ++ e
   | .ok r => s!"ok d={fb r.dist} ani={ofb r.ani} p={fb r.pNothing} px={b2s r.pExceeds}"
+
+/-! #### `cls`: FracMinHashComparison / PrefetchResult / GatherResult / SearchResult from the MinHash-level answers -/
+
+def c4 (r : CiAns Float) : String := s!"{ofb r.ani},{ofb r.lo},{ofb r.hi},{b2s r.px}"
+
+def ciAns? (ws : List String) : Option (CiAns Float) :=
+  match ws with
+  | [a, l, h, p] => do pure { ani := ← optFl? a, lo := ← optFl? l, hi := ← optFl? h, px := ← bool? p }
+  | _ => none
+
+def jacAns? (ws : List String) : Option (Except String (JacAns Float)) :=
+  match ws with
+  | [a, p, x] =>
+    if a.startsWith "E" && a.length > 1 then some (.error (a.drop 1).toString)
+    else do pure (.ok { ani := ← optFl? a, px := ← bool? p, jx := ← bool? x })
+  | _ => none
+
+def avgF (x y : Float) : Float := (x + y) / 2
+
+/-- Python `max([a1, a2])`: the first of two equal values -/
+def maxF (x y : Float) : Float := if y > x then y else x
+
+def presence (l : List (Option Float)) : String := String.join (l.map fun v => b2s (csvPresent v))
+
+def pfFields (ci : Bool) (r12 r21 : CiAns Float) : String :=
+  let p := prefetchAni ci avgF maxF r12 r21
+  let cols := [p.query, p.«match», p.average, p.max, p.qlo, p.qhi, p.mlo, p.mhi]
+  let pres := presence cols
+  s!"{ofb p.query},{ofb p.«match»},{ofb p.average},{ofb p.max},{b2s p.pfn},{ofb p.qlo},{ofb p.qhi},{ofb p.mlo},{ofb p.mhi},{pres},{pres}"
+
+def searchField (kind : SearchKind) (ci : Bool) (r12 mc : CiAns Float) (j : Except String (JacAns Float)) : String :=
+  match searchAni kind ci r12 mc j with
+  | .error e => "E" ++ e
+  | .ok r => s!"{c4 r},{presence [r.ani, r.lo, r.hi]}"
+
+def clsLine (common sa sb : Nat) (cs : Option Nat) (ci : Bool) (acc1 acc2 : Bool) (r12 r21 mc : CiAns Float)
+    (j : Except String (JacAns Float)) : String :=
+  if (match cs with | some c => decide (c < Nat.max sa sb) | none => false) then
+    -- `downsample(scaled=cmp_scaled)` below the sketch's own scaled: every class raises ValueError
+    let e := "EValueError"
+    s!"ok ref={e} c.c12={e} c.c21={e} c.avgp={e} c.all={e} c.mx={e} c.j={e} c.sinacc={e} p={e} g={e} s.c={e} s.m={e} s.j={e}"
+  else
+    let jref := match j with
+      | .ok r => s!"{ofb r.ani},{b2s r.px},{b2s r.jx}"
+      | .error e => "E" ++ e
+    let refs := s!"ref.acc={b2s acc1}{b2s acc2} ref.c12={c4 r12} ref.c21={c4 r21} ref.mc={c4 mc} ref.j={jref} ref.avg={ofb (avgAni avgF r12.ani r21.ani)}"
+    let ap := cmpAvgProperty avgF r12 r21
+    let all := cmpEstimateAll maxF r12 r21
+    let cj := match j with
+      | .ok r => s!"{ofb r.ani},{b2s r.px},{b2s r.jx}"
+      | .error e => "E" ++ e
+    let cmp := s!"c.c12={c4 (cmpDirectional ci r12)} c.c21={c4 (cmpDirectional ci r21)} c.avgp={ofb ap.1},{b2s ap.2} " ++
+      s!"c.all={ofb all.1},{ofb all.2.1},{ofb all.2.2.1},{b2s all.2.2.2} c.mx={c4 (cmpDirectional ci mc)} c.j={cj} " ++
+      s!"c.sinacc={b2s (cmpSizeMayBeInaccurate acc1 acc2)}"
+    -- GatherResult: `cmp_scaled` is mandatory (ValueError), and its two `assert … == 1.0` fail on an empty intersection
+    let g := match cs with
+      | none => "EValueError"
+      | some _ => if common = 0 then "EAssertionError" else pfFields ci r12 r21
+    s!"ok {refs} {cmp} p={pfFields ci r12 r21} g={g} s.c={searchField .containment ci r12 mc j} " ++
+      s!"s.m={searchField .maxContainment ci r12 mc j} s.j={searchField .jaccard ci r12 mc j}"
 
 def step (st : Unit) (line : String) : Unit × String :=
   let bad := (st, "bad-op")
@@ -168,6 +233,16 @@ def step (st : Unit) (line : String) : Unit × String :=
       if scaled = 0 then bad else
       (st, s!"ok p={fb (rustPNothingInCommon ani k (1.0 / scaled.toFloat) n.toFloat)}")
     | _, _ => bad
+  | "nat" :: "gstats" :: lq :: lm :: cm :: scaled :: k :: rem :: ci :: conf :: rest =>
+    match nats? [lq, lm, cm, scaled, k, rem], bool? ci, optFl? conf, rest.mapM optFl? with
+    | some [lq, lm, cm, scaled, k, rem], some _, some _, some vals =>
+      if scaled = 0 ∨ k = 0 ∨ cm > lq ∨ cm > lm ∨ rem > cm ∨ lq = 0 ∨ lm = 0 ∨ vals.length ≠ 12 then bad else
+      -- statrs / roots (the four interval bounds) and the Python twin (8 values) are echoed; the point fields are computed
+      let (q, m, avg, mx, fq, fm) := rustGatherAni cm lq lm k
+      let ci4 := (vals.take 4).map ofb
+      let py := ",".intercalate ((vals.drop 4).map ofb)
+      (st, s!"ok q={fb q} m={fb m} avg={fb avg} max={fb mx} qlo={ci4.getD 0 ""} qhi={ci4.getD 1 ""} mlo={ci4.getD 2 ""} mhi={ci4.getD 3 ""} foq={fb fq} fmo={fb fm} py={py}")
+    | _, _, _, _ => bad
   | ["nat", which, c, k, scaled, n, conf, alo, ahi] =>
     if which ≠ "ci" ∧ which ≠ "inc-ci" then bad else
     match fl? c, nats? [k, scaled, n], optFl? conf, optFl? alo, optFl? ahi with
@@ -178,6 +253,22 @@ def step (st : Unit) (line : String) : Unit × String :=
       | none, some lo, some hi => (st, s!"ok alo={fb lo} ahi={fb hi}")
       | none, _, _ => (st, "err ANIEstimationError")
     | _, _, _, _, _ => bad
+  | "cls" :: la :: lb :: cm :: xa :: xb :: sa :: sb :: k :: cs :: ci :: conf :: rest =>
+    match nats? [la, lb, cm, xa, xb, sa, sb, k], (if cs = "-" then some none else (nat? cs).map some), bool? ci, fl? conf with
+    | some [la, lb, cm, _, _, sa, sb, k], some cs, some ci, some _ =>
+      if k = 0 ∨ sa = 0 ∨ sb = 0 ∨ cm > la ∨ cm > lb ∨ cs = some 0 ∨ rest.length ≠ 17 then bad else
+      match bool? (rest.getD 0 ""), bool? (rest.getD 1 ""), ciAns? ((rest.drop 2).take 4), ciAns? ((rest.drop 6).take 4),
+            ciAns? ((rest.drop 10).take 4), jacAns? ((rest.drop 14).take 3) with
+      | some a1, some a2, some r12, some r21, some mc, some j => (st, clsLine cm sa sb cs ci a1 a2 r12 r21 mc j)
+      | _, _, _, _, _, _ => bad
+    | _, _, _, _ => bad
+  | ["clsnum", la, lb, cm, num, k] =>
+    match nats? [la, lb, cm, num, k] with
+    | some [la, lb, cm, num, k] =>
+      if num = 0 ∨ k = 0 ∨ cm > la ∨ cm > lb then bad else
+      -- num sketches: `jaccard_ani` raises TypeError, sizes are not estimated, a SearchResult carries no `ani`
+      (st, "ok c.j=ETypeError c.sinacc=0 s.j=N,0")
+    | _ => bad
   | _ => bad
 
 end Sm.DriverAni
